@@ -37,18 +37,21 @@ TraceSpec == TraceInit /\ [][TraceNext]_tvars
 
 (* a sparse container need not store an element that is zero in value and  *)
 (* in all derivatives; once dropped, the element reports order 0 / N 0     *)
-(* (also after a later plain write).  For sparse objects the recorder logs *)
-(* d = -2 for "order 0, N 0", which matches every all-zero derivative code *)
-CellObsOK(ov, od, cv, cd) == ov = cv /\ (od = cd \/ (od = -2 /\ cd % 100 = 0))
-ObjObsOK(ob, ct) ==
+(* (also after a later plain write, and in every copy made of it).  For    *)
+(* sparse objects the recorder logs d = -2 for "order 0, N 0", which       *)
+(* matches every all-zero derivative code; while a sparse object is alive  *)
+(* in the history, a dense object may show such an element as a constant.  *)
+CellObsOK(ov, od, cv, cd, anySparse) ==
+  ov = cv /\ (od = cd \/ (cd % 100 = 0 /\ (od = -2 \/ (anySparse /\ od = 0))))
+ObjObsOK(ob, ct, anySparse) ==
   /\ ob.k = ct.k /\ ob.of = ct.of /\ ob.r = ct.r /\ ob.c = ct.c /\ ob.fl = ct.fl /\ ob.pt = ct.pt
   /\ ob.pos = ct.pos
   /\ Len(ob.v) = Len(ct.v) /\ Len(ob.d) = Len(ct.d)
-  /\ \A p \in 1..Len(ct.v) : CellObsOK(ob.v[p], ob.d[p], ct.v[p], ct.d[p])
+  /\ \A p \in 1..Len(ct.v) : CellObsOK(ob.v[p], ob.d[p], ct.v[p], ct.d[p], anySparse)
 ObsOK ==
   l > 1 => LET ob == Trace[l-1].obs  ct == AllContent(objs, mem) IN
            /\ Len(ob) = Len(ct)
-           /\ \A x \in 1..Len(ct) : ObjObsOK(ob[x], ct[x])
+           /\ \A x \in 1..Len(ct) : ObjObsOK(ob[x], ct[x], \E y \in 1..Len(ob) : ob[y].sp)
 
 TraceAccepted ==
   IF TLCGet("stats").diameter - 1 = Len(Trace) THEN TRUE
